@@ -743,6 +743,38 @@ impl<'a> Run<'a> {
         let mut val = Inst::Val(fid);
         let sig = self.sig(t);
         let target_ptr = self.target_ptr(t, op.kind == "unchecked");
+        // "another thread is scheduled at every OS-call boundary of the installation and calls
+        // the functions": a function that already has a fake must never show anything but a fake
+        let new_val: (u32, u32) = match op.kind.as_str() {
+            "boolean" => (op.value as u32, 0xFF),
+            "closure" => (2002, u32::MAX),
+            "fakemacro" => (2003, u32::MAX),
+            "fakecounted" => (2004, u32::MAX),
+            "realfn" => (if op.value { 2000 } else { 2001 }, u32::MAX),
+            _ => (fid, if tr.ret == "bool" { 0xFF } else { u32::MAX }),
+        };
+        let mut watch: Vec<(String, usize, u64, Vec<(u32, u32)>)> = Vec::new();
+        for ti in 0..self.sc.targets.len() {
+            let mut allowed = vec![self.expect(ti)];
+            if ti == t {
+                allowed.push(new_val);
+            }
+            let trr = &self.sc.targets[ti];
+            watch.push((trr.kind.clone(), trr.idx, self.target_addr(ti), allowed));
+        }
+        let findings: std::rc::Rc<std::cell::RefCell<Vec<String>>> = Default::default();
+        let f2 = findings.clone();
+        let obs_n: std::rc::Rc<std::cell::Cell<u64>> = Default::default();
+        let obs_n2 = obs_n.clone();
+        interpose::set_observer(Some(Box::new(move |point| {
+            for (kind, idx, addr, allowed) in &watch {
+                let g = if kind == "synth" { arena::call_u32(*addr) } else { real_target_call(*idx) };
+                obs_n2.set(obs_n2.get() + 1);
+                if !allowed.iter().any(|(v, m)| g & m == v & m) {
+                    f2.borrow_mut().push(format!("at the {point} boundary a call of the function at {:#x} from another thread returned {:#x}; allowed (value, mask) {:x?}", addr, g, allowed));
+                }
+            }
+        })));
         interpose::arm(true);
         let r = catch_unwind(AssertUnwindSafe(|| unsafe {
             match op.kind.as_str() {
@@ -759,6 +791,14 @@ impl<'a> Run<'a> {
             }
         }));
         interpose::arm(false);
+        interpose::set_observer(None);
+        self.calls += obs_n.get();
+        if obs_n.get() > 0 {
+            *self.probes.entry("calls_interleaved_with_installation".into()).or_insert(0) += obs_n.get();
+        }
+        if let Some(f) = findings.borrow().first() {
+            self.v("call-during-installation-saw-neither-old-nor-new-behaviour", &["C01", "C02"], format!("lifetime {lt} op {oi} ({} on target #{t}): {f}", op.kind));
+        }
         let fl = interpose::faults();
         if fl.fired_enomem > 0 {
             *self.faults.entry("mmap_enomem_injected".into()).or_insert(0) += fl.fired_enomem;
